@@ -1,11 +1,46 @@
-from jsim.envs.base import Adapter
+"""Connector: rules written from docs/environments/connector.md, the class docstring and property C09.
+
+Square grid, one grid value triple per agent i (ids from 0): path 1+3i, position (head) 2+3i, target 3+3i,
+0 = empty. Actions per agent 0..4 = no-op, up, right, down, left. A head moves one cell; the cell it
+leaves becomes its path, which nobody can enter any more. An agent may enter an empty cell or its own
+target; a connected agent (head on its target) does not move any more. Agents move simultaneously; when
+several heads try to enter the same cell in one step the lower ids yield (they stay where they were), the
+agent with the highest id takes the cell. Reward (dense): +1 for the agent that connects on this step,
+-0.03 for every agent that has not connected yet. The episode ends when every agent is connected or
+blocked (no move available) or at the time limit.
+"""
+from __future__ import annotations
+
+from typing import Any, Dict, List, Optional, Tuple
+
+import numpy as np
+
 from jsim.envs._mk import cfg, cross_tl
+from jsim.envs.base import Adapter, bfs_path
+
+DELTA = {1: (-1, 0), 2: (0, 1), 3: (1, 0), 4: (0, -1)}  # up, right, down, left
+PATH, POS, TGT = 1, 2, 3  # + 3 * agent id
+CONNECT_REWARD, STEP_REWARD = 1.0, -0.03
+
+
+def _act(frm: Tuple[int, int], to: Tuple[int, int]) -> int:
+    d = (to[0] - frm[0], to[1] - frm[1])
+    for a, dd in DELTA.items():
+        if dd == d:
+            return a
+    return 0
 
 
 class A(Adapter):
     name = "Connector"
     mask_mode = "per_agent"
     noop = 0
+    has_reaction = True
+    has_invalid_effect = True
+    has_constraints = True
+    has_physical = True
+    has_model = True
+    has_observer = True
 
     def configs(self):
         base = [cfg("g10a10rw", True, g=10, a=10, gen="rw", tl=None), cfg("g5a2uni", True, g=5, a=2, gen="uni", tl=None),
@@ -22,3 +57,320 @@ class A(Adapter):
 
     def time_limit(self, env, c):
         return 50 if c.get("tl") is None else c["tl"]
+
+    # ---- raw-array rules -----------------------------------------------------------------------------
+    @staticmethod
+    def _raw(s: Any) -> Tuple[np.ndarray, np.ndarray, np.ndarray]:
+        grid = np.asarray(s.grid).astype(np.int64)
+        pos = np.asarray(s.agents.position).astype(np.int64).reshape(-1, 2)
+        tgt = np.asarray(s.agents.target).astype(np.int64).reshape(-1, 2)
+        return grid, pos, tgt
+
+    @staticmethod
+    def _legal_raw(grid: np.ndarray, pos: np.ndarray, tgt: np.ndarray) -> np.ndarray:
+        n = len(pos)
+        R, C = grid.shape
+        out = np.zeros((n, 5), bool)
+        out[:, 0] = True  # no-op is always allowed
+        for i in range(n):
+            if tuple(pos[i]) == tuple(tgt[i]):
+                continue  # connected agents do not move any more
+            for a, (dr, dc) in DELTA.items():
+                r, c = int(pos[i, 0]) + dr, int(pos[i, 1]) + dc
+                if 0 <= r < R and 0 <= c < C and (grid[r, c] == 0 or grid[r, c] == TGT + 3 * i):
+                    out[i, a] = True
+        return out
+
+    @classmethod
+    def _step_raw(cls, grid: np.ndarray, pos: np.ndarray, tgt: np.ndarray, action: Any) -> Tuple[np.ndarray, np.ndarray, int]:
+        """Simultaneous move: every allowed move is a claim on its target cell; a cell claimed by several heads goes to
+        the highest id (lower ids yield and stay). Returns (grid, positions, number of contested cells)."""
+        legal = cls._legal_raw(grid, pos, tgt)
+        claims: Dict[Tuple[int, int], List[int]] = {}
+        for i in range(len(pos)):
+            a = int(action[i])
+            if a != 0 and legal[i, a]:
+                cell = (int(pos[i, 0]) + DELTA[a][0], int(pos[i, 1]) + DELTA[a][1])
+                claims.setdefault(cell, []).append(i)
+        g2, p2 = grid.copy(), pos.copy()
+        contested = 0
+        for cell, ids in claims.items():
+            w = max(ids)
+            contested += len(ids) > 1
+            g2[tuple(pos[w])] = PATH + 3 * w
+            g2[cell] = POS + 3 * w
+            p2[w] = cell
+        return g2, p2, contested
+
+    @classmethod
+    def _finished(cls, grid: np.ndarray, pos: np.ndarray, tgt: np.ndarray) -> Tuple[np.ndarray, np.ndarray]:
+        conn = (pos == tgt).all(axis=1)
+        blocked = ~cls._legal_raw(grid, pos, tgt)[:, 1:].any(axis=1)
+        return conn, blocked
+
+    # ---- C04 -----------------------------------------------------------------------------------------
+    def legal(self, s: Any, env: Any) -> np.ndarray:
+        return self._legal_raw(*self._raw(s))
+
+    def describe(self, s, env, idx):
+        grid, pos, tgt = self._raw(s)
+        i = idx[0]
+        return f"agent {i} head={tuple(pos[i])} target={tuple(tgt[i])} grid=\n{grid}"
+
+    def reaction_invalid(self, ps, action, agent, s, ts, env, cfg):
+        if int(action[agent]) == 0:
+            return None  # a no-op cannot be told from an ignored move
+        before = np.asarray(ps.agents.position)[agent]
+        after = np.asarray(s.agents.position)[agent]
+        return bool(np.array_equal(before, after))  # the head did not move: the move was ignored
+
+    # ---- C05 -----------------------------------------------------------------------------------------
+    def invalid_effect(self, ps, action, illegal, s, ts, env, cfg):
+        g0, p0, t0 = self._raw(ps)
+        g1, p1, _ = self._raw(s)
+        ill = list(illegal) if isinstance(illegal, (list, tuple)) else list(range(len(p0)))
+        for i in ill:
+            if not np.array_equal(p0[i], p1[i]):
+                return ("invalid_move_moved_agent", f"agent {i} moved {tuple(p0[i])} -> {tuple(p1[i])} on an illegal action {int(action[i])}")
+            own0 = (g0 >= PATH + 3 * i) & (g0 <= TGT + 3 * i)
+            own1 = (g1 >= PATH + 3 * i) & (g1 <= TGT + 3 * i)
+            if not np.array_equal(np.where(own0, g0, 0), np.where(own1, g1, 0)):
+                return ("invalid_move_changed_cells", f"cells of agent {i} changed on its illegal action {int(action[i])}:\n{g0}\n->\n{g1}")
+        if all(int(action[j]) == 0 or j in ill for j in range(len(p0))):
+            # nobody made an allowed move: nothing may be placed anywhere
+            if not np.array_equal(g0, g1):
+                return ("invalid_move_changed_grid", f"grid changed although only illegal moves / no-ops were played:\n{g0}\n->\n{g1}")
+            conn, blocked = self._finished(g0, p0, t0)
+            may_end = bool((conn | blocked).all()) or int(ps.step_count) + 1 >= self.time_limit(env, cfg)
+            if int(ts.step_type) == 2 and not may_end:
+                return ("invalid_move_ended_episode", f"LAST after an ignored move at step {int(ps.step_count) + 1} (not all agents connected/blocked)")
+            want = np.where(conn, 0.0, STEP_REWARD)
+            if not np.allclose(np.asarray(ts.reward, dtype=np.float64), want, rtol=1e-5, atol=1e-6):
+                return ("invalid_move_reward", f"reward {np.asarray(ts.reward).tolist()} expected {want.tolist()} (nobody connected)")
+        if int(s.step_count) != int(ps.step_count) + 1:
+            return ("invalid_move_step_count", f"step_count {int(s.step_count)} after {int(ps.step_count)}")
+        return None
+
+    # ---- C06 -----------------------------------------------------------------------------------------
+    def constraints(self, hist, env, cfg):
+        grid, pos, tgt = self._raw(hist[0].state)
+        n = len(pos)
+        routes: List[List[Tuple[int, int]]] = [[(int(p[0]), int(p[1]))] for p in pos]
+        for rec in hist[1:]:
+            if rec.post_terminal:
+                break
+            grid, p2, _ = self._step_raw(grid, pos, tgt, rec.action)
+            for i in range(n):
+                if not np.array_equal(p2[i], pos[i]):
+                    routes[i].append((int(p2[i, 0]), int(p2[i, 1])))
+            pos = p2
+        s = hist[-1].state
+        g, p, t = self._raw(s)
+        owner: Dict[Tuple[int, int], int] = {}
+        for i, route in enumerate(routes):
+            for k, cell in enumerate(route):
+                if cell in owner:
+                    return ("routes_share_cell", f"cell {cell} lies on the routes of agents {owner[cell]} and {i}")
+                owner[cell] = i
+                if k and abs(cell[0] - route[k - 1][0]) + abs(cell[1] - route[k - 1][1]) != 1:
+                    return ("route_not_contiguous", f"agent {i}: {route[k - 1]} -> {cell}")
+        want = np.zeros_like(g)
+        for i, route in enumerate(routes):
+            for cell in route[:-1]:
+                want[cell] = PATH + 3 * i
+            want[route[-1]] = POS + 3 * i
+            tc = (int(t[i, 0]), int(t[i, 1]))
+            if route[-1] != tc:
+                if tc in owner:
+                    return ("route_through_foreign_target", f"target {tc} of agent {i} lies on the route of agent {owner[tc]}")
+                want[tc] = TGT + 3 * i
+            if tuple(p[i]) != route[-1]:
+                return ("head_differs_from_history", f"agent {i}: agents.position {tuple(p[i])} but the action history leads to {route[-1]}")
+        if not np.array_equal(g, want):
+            ij = np.argwhere(g != want)[0]
+            return ("grid_differs_from_routes", f"grid{ij.tolist()} = {int(g[tuple(ij)])} but the routes rebuilt from the action history give "
+                    f"{int(want[tuple(ij)])}:\n{g}\nvs\n{want}")
+        if int(hist[-1].ts.step_type) == 2 and bool((p == t).all()):
+            # completion: every route is a contiguous start..target path and the routes are pairwise disjoint (checked above)
+            for i, route in enumerate(routes):
+                if route[-1] != (int(t[i, 0]), int(t[i, 1])):
+                    return ("incomplete_at_completion", f"agent {i} route ends at {route[-1]}, target {tuple(t[i])}")
+        return None
+
+    # ---- C07 -----------------------------------------------------------------------------------------
+    def physical(self, ps, action, s, ts, env, cfg):
+        g, p, t = self._raw(s)
+        n = len(p)
+        R, C = g.shape
+        if g.min() < 0 or g.max() > 3 * n:
+            return ("grid_value_out_of_range", f"grid values span {int(g.min())}..{int(g.max())} with {n} agents")
+        for i in range(n):
+            cells = np.argwhere(g == POS + 3 * i)
+            if len(cells) != 1:
+                return ("position_not_unique", f"agent {i}: {len(cells)} cells hold its position value {POS + 3 * i}")
+            if not (0 <= p[i, 0] < R and 0 <= p[i, 1] < C):
+                return ("agent_outside_grid", f"agent {i} at {tuple(p[i])}")
+            if tuple(cells[0]) != tuple(p[i]):
+                return ("position_disagrees_with_grid", f"agent {i}: agents.position {tuple(p[i])} but the grid shows its head at {tuple(cells[0])}")
+            tc = np.argwhere(g == TGT + 3 * i)
+            if tuple(p[i]) == tuple(t[i]):
+                if len(tc):
+                    return ("target_left_after_connection", f"agent {i} is connected but value {TGT + 3 * i} is still at {tc.tolist()}")
+            elif len(tc) != 1 or tuple(tc[0]) != tuple(t[i]):
+                return ("target_missing", f"agent {i} not connected; target {tuple(t[i])}, cells holding {TGT + 3 * i}: {tc.tolist()}")
+        if ps is None:
+            return None
+        g0, p0, t0 = self._raw(ps)
+        if not np.array_equal(t0, t):
+            return ("target_moved", f"targets {t0.tolist()} -> {t.tolist()}")
+        if ((g0 != 0) & (g == 0)).any():
+            return ("cell_emptied", f"non-empty cell became empty: {np.argwhere((g0 != 0) & (g == 0))[0].tolist()}")
+        grown = 0
+        for i in range(n):
+            if np.array_equal(p0[i], p[i]):
+                continue
+            if abs(p0[i] - p[i]).sum() != 1:
+                return ("agent_jumped", f"agent {i}: {tuple(p0[i])} -> {tuple(p[i])}")
+            if g[tuple(p0[i])] != PATH + 3 * i:
+                return ("no_path_left_behind", f"agent {i} left {tuple(p0[i])} which now holds {int(g[tuple(p0[i])])}")
+            grown += int(g0[tuple(p[i])] == 0)  # entering the own target does not add a non-empty cell
+        if int((g != 0).sum()) - int((g0 != 0).sum()) != grown:
+            return ("occupancy_not_conserved", f"non-empty cells {int((g0 != 0).sum())} -> {int((g != 0).sum())} but {grown} agents moved onto empty cells")
+        paths0 = (g0 > 0) & (g0 % 3 == PATH)
+        if (g[paths0] != g0[paths0]).any():
+            return ("path_cell_changed", "a path cell changed its value")
+        return None
+
+    # ---- C09 -----------------------------------------------------------------------------------------
+    def model_step(self, ps, action, s, ts, env, cfg):
+        g0, p0, t0 = self._raw(ps)
+        g1, p1, contested = self._step_raw(g0, p0, t0, action)
+        g, p, t = self._raw(s)
+        if int(s.step_count) != int(ps.step_count) + 1:
+            return ("step_count", f"step_count {int(s.step_count)} expected {int(ps.step_count) + 1}")
+        if not np.array_equal(p, p1):
+            i = int(np.argwhere((p != p1).any(axis=1))[0][0])
+            return ("position", f"agent {i}: position {tuple(p[i])} expected {tuple(p1[i])} (from {tuple(p0[i])}, actions {list(action)}, "
+                    f"{contested} contested cells)\n{g0}")
+        if not np.array_equal(g, g1):
+            ij = np.argwhere(g != g1)[0]
+            return ("grid", f"grid{ij.tolist()} = {int(g[tuple(ij)])} expected {int(g1[tuple(ij)])} (actions {list(action)})\n{g0}\n->\n{g}")
+        if not np.array_equal(t, t0) or not np.array_equal(np.asarray(s.agents.start), np.asarray(ps.agents.start)) \
+                or not np.array_equal(np.asarray(s.agents.id), np.asarray(ps.agents.id)):
+            return ("agent_constants", "agents.id / start / target changed")
+        conn0 = (p0 == t0).all(axis=1)
+        conn1 = (p1 == t0).all(axis=1)
+        r = np.asarray(ts.reward, dtype=np.float64)
+        base = np.where(conn0, 0.0, STEP_REWARD) + np.where(conn1 & ~conn0, CONNECT_REWARD, 0.0)
+        # the docs do not say whether the agent that connects on this step still pays the -0.03 of "not connected yet":
+        # both readings are accepted for that agent only
+        alt = np.where(conn1 & ~conn0, CONNECT_REWARD, base)
+        ok = np.isclose(r, base, rtol=1e-5, atol=1e-6) | np.isclose(r, alt, rtol=1e-5, atol=1e-6)
+        if r.shape != base.shape or not ok.all():
+            return ("reward", f"reward {r.tolist()} expected {base.tolist()} (connected before {conn0.tolist()}, after {conn1.tolist()})")
+        conn, blocked = self._finished(g1, p1, t0)
+        sc = int(ps.step_count) + 1
+        done = bool((conn | blocked).all()) or sc >= self.time_limit(env, cfg)
+        if (int(ts.step_type) == 2) != done:
+            return ("termination", f"step_type {int(ts.step_type)} but the rules say done={done} (connected {conn.tolist()}, blocked "
+                    f"{blocked.tolist()}, step {sc}/{self.time_limit(env, cfg)})")
+        return None
+
+    # ---- C11 -----------------------------------------------------------------------------------------
+    def end_cause(self, ps, action, s, ts, env, cfg):
+        g, p, t = self._raw(s)
+        conn, blocked = self._finished(g, p, t)
+        if conn.all():
+            return "all_connected"
+        if (conn | blocked).all():
+            return "all_connected_or_blocked"
+        return None
+
+    # ---- C12 -----------------------------------------------------------------------------------------
+    def observe(self, s, obs, env, cfg):
+        # docs/environments/connector.md and the observation spec: one (grid_size, grid_size) grid shared by all agents
+        # (the per-agent relabelled view mentioned in the Observation NamedTuple docstring is not what the docs publish)
+        g = np.asarray(s.grid)
+        og = np.asarray(obs.grid)
+        if og.shape != g.shape or not np.array_equal(og, g):
+            return ("grid", f"observation.grid differs from state.grid:\n{og}\nvs\n{g}")
+        if int(obs.step_count) != int(s.step_count):
+            return ("step_count", f"obs {int(obs.step_count)} vs state {int(s.step_count)}")
+        m = np.asarray(obs.action_mask)
+        n = np.asarray(s.agents.position).reshape(-1, 2).shape[0]
+        if m.shape != (n, 5) or m.dtype != bool:
+            return ("action_mask_shape", f"action_mask {m.shape} {m.dtype}")
+        return None
+
+    # ---- policies ------------------------------------------------------------------------------------
+    def policy_survive(self, s, env, rng, legal):
+        return [0] * len(np.asarray(s.agents.position).reshape(-1, 2))  # nobody moves: only the clock (or an all-blocked board) ends it
+
+    def policy_complete(self, s, env, rng, legal):
+        """Plan agents in id order: BFS through empty cells not reserved by an earlier agent's plan."""
+        g, p, t = self._raw(s)
+        n = len(p)
+        reserved = np.zeros(g.shape, bool)
+        act = [0] * n
+        for i in range(n):
+            if tuple(p[i]) == tuple(t[i]):
+                continue
+            free = (g == 0) & ~reserved
+            goal = (int(t[i, 0]), int(t[i, 1]))
+            free[goal] = True
+            path = bfs_path(free, (int(p[i, 0]), int(p[i, 1])), lambda c, goal=goal: c == goal)
+            if path is None or len(path) < 2:
+                continue
+            for c in path[1:]:
+                reserved[c] = True
+            act[i] = _act(path[0], path[1])
+        if not any(act):
+            return None
+        return act
+
+    def policy_collide(self, s, env, rng, legal):
+        """Send as many heads as possible into one empty cell; otherwise walk the closest pair towards each other."""
+        g, p, t = self._raw(s)
+        n = len(p)
+        lg = self._legal_raw(g, p, t)
+        wants: Dict[Tuple[int, int], List[Tuple[int, int]]] = {}
+        for i in range(n):
+            for a in DELTA:
+                if lg[i, a]:
+                    cell = (int(p[i, 0]) + DELTA[a][0], int(p[i, 1]) + DELTA[a][1])
+                    if g[cell] == 0:
+                        wants.setdefault(cell, []).append((i, a))
+        shared = sorted((c for c in wants if len(wants[c]) > 1), key=lambda c: (-len(wants[c]), c))
+        act = [0] * n
+        if shared:
+            top = [c for c in shared if len(wants[c]) == len(wants[shared[0]])]
+            cell = top[int(rng.integers(0, len(top)))]
+            for i, a in wants[cell]:
+                act[i] = a
+            for i in range(n):  # the others move at random (legal) half of the time
+                if act[i] == 0 and rng.random() < 0.5:
+                    idx = np.flatnonzero(lg[i])
+                    act[i] = int(idx[int(rng.integers(0, len(idx)))])
+            return act
+        movers = [i for i in range(n) if lg[i, 1:].any()]
+        best = None
+        for x in range(len(movers)):
+            for y in range(x + 1, len(movers)):
+                i, j = movers[x], movers[y]
+                d = int(abs(p[i] - p[j]).sum())
+                if best is None or d < best[0]:
+                    best = (d, i, j)
+        if best is None:
+            return None
+        _, i, j = best
+        free = g == 0
+        goal = (int(p[j, 0]), int(p[j, 1]))
+        free[goal] = True
+        path = bfs_path(free, (int(p[i, 0]), int(p[i, 1])), lambda c: c == goal)
+        if path is None or len(path) < 3:
+            return None
+        edges = len(path) - 1
+        act[i] = _act(path[0], path[1])
+        if edges % 2 == 0 and edges >= 4:
+            act[j] = _act(path[-1], path[-2])
+        return act
